@@ -426,10 +426,17 @@ class Interp:
             raise Untranslatable('Try::branch of ' + repr(e))
         if re.fullmatch(r'<Option<.*> as FromResidual<.*>>::from_residual', c):
             return [(pc, Enum('None'))]
-        if re.fullmatch(r'<impl Into<Coord<\w+>> as Into<geo_types::Coord<\w+>>>::into', c):
-            return [(pc, d[0])]
-        if c in self.uf:
-            return [(pc, self.uf[c](self, d))]
+        if re.fullmatch(r'<impl Into<Coord<\w+>> as Into<geo_types::Coord<\w+>>>::into', c) or re.fullmatch(r'<geo_types::Point<\w+> as Into<geo_types::Coord<\w+>>>::into', c):
+            v = d[0]
+            if isinstance(v, list) and len(v) == 1 and isinstance(deref(v[0]), list):
+                v = deref(v[0])   # a Point (tuple struct around a Coord) used where a Coord is expected
+            return [(pc, v)]
+        for upat, ufn in self.uf.items():
+            if upat == c or (upat.startswith('re:') and re.fullmatch(upat[3:], c)):
+                r = ufn(self, d) if not getattr(ufn, 'wants_pc', False) else ufn(self, d, pc)
+                if isinstance(r, tuple) and len(r) == 2 and r[0] == 'fork':
+                    return [(z3.And(pc, cond), val) for cond, val in r[1]]
+                return [(pc, r)]
         for pat, (crate, fpat) in self.extra.items():
             if re.fullmatch(pat, c):
                 return self.call_fn(self.mir.find(crate, fpat), argv, pc, depth + 1)
